@@ -4,6 +4,9 @@ CONSTANTS MaxCap = 2
           MaxPend = 3
           MaxMsgs = 5
           FixedWrap = TRUE
+          ResizeRuns = TRUE
+          GetRefills = TRUE
+          NbReady = TRUE
 INVARIANTS IndexInRange Refines
 ACTION_CONSTRAINT ExportEdge
 VIEW View
